@@ -547,48 +547,60 @@ impl FlowRig {
         tape: Rc<RefCell<Tape>>,
         budget_hit: Rc<RefCell<bool>>,
     ) -> FlowRig {
-        {
-            let (e, b) = (emits.clone(), budget_hit.clone());
-            commands
-                .set(fn_command("emit", move |c| {
-                    if e.borrow().len() >= EMIT_BUDGET {
-                        *b.borrow_mut() = true;
-                        return CommandResult::Exit(None);
-                    }
-                    e.borrow_mut().push(c.arguments.clone());
-                    CommandResult::Continue(None)
-                }))
-                .unwrap();
-        }
-        {
-            let t = tape.clone();
-            commands
-                .set(fn_command("ans", move |c| {
-                    let site: u32 = c.arguments.first().and_then(|s| s.parse().ok()).unwrap_or(9999);
-                    let negated = c.arguments.get(1).map(|s| s == "n").unwrap_or(false);
-                    let choice = t.borrow().choose(site, 2);
-                    let truth = (choice == 1) != negated;
-                    CommandResult::Continue(Some(truth.to_string()))
-                }))
-                .unwrap();
-        }
-        {
-            let t = tape.clone();
-            commands
-                .set(fn_command("lst", move |c| {
-                    let site: u32 = c.arguments.first().and_then(|s| s.parse().ok()).unwrap_or(9999);
-                    let n = t.borrow().choose(site, 3) as usize;
-                    let items: Vec<String> = (0..n).map(|i| format!("e{}", i)).collect();
-                    CommandResult::Continue(Some(items.join(" ")))
-                }))
-                .unwrap();
-        }
+        register_harness_commands(&mut commands, emits.clone(), tape.clone(), budget_hit.clone());
         FlowRig {
             commands: RefCell::new(Some(commands)),
             emits,
             tape,
             budget_hit,
         }
+    }
+}
+
+/// Registers `emit` (trace), `ans` (truth value from the tape) and `lst` (list text from the tape).
+pub fn register_harness_commands(
+    commands: &mut Commands,
+    emits: Rc<RefCell<Vec<Vec<String>>>>,
+    tape: Rc<RefCell<Tape>>,
+    budget_hit: Rc<RefCell<bool>>,
+) {
+    {
+        let (e, b) = (emits.clone(), budget_hit.clone());
+        commands
+            .set(fn_command("emit", move |c| {
+                if e.borrow().len() >= EMIT_BUDGET {
+                    *b.borrow_mut() = true;
+                    // ends the run in the same place as the reference interpreter
+                    return CommandResult::Exit(None);
+                }
+                e.borrow_mut().push(c.arguments.clone());
+                CommandResult::Continue(None)
+            }))
+            .unwrap();
+    }
+    {
+        let t = tape.clone();
+        commands
+            .set(fn_command("ans", move |c| {
+                let site: u32 = c.arguments.first().and_then(|s| s.parse().ok()).unwrap_or(9999);
+                let negated = c.arguments.get(1).map(|s| s == "n").unwrap_or(false);
+                let choice = t.borrow().choose(site, 2);
+                // choice 1 = "the condition holds"; for the negated form the command says the opposite
+                let truth = (choice == 1) != negated;
+                CommandResult::Continue(Some(truth.to_string()))
+            }))
+            .unwrap();
+    }
+    {
+        let t = tape.clone();
+        commands
+            .set(fn_command("lst", move |c| {
+                let site: u32 = c.arguments.first().and_then(|s| s.parse().ok()).unwrap_or(9999);
+                let n = t.borrow().choose(site, 3) as usize;
+                let items: Vec<String> = (0..n).map(|i| format!("e{}", i)).collect();
+                CommandResult::Continue(Some(items.join(" ")))
+            }))
+            .unwrap();
     }
 }
 
